@@ -14,7 +14,7 @@ import (
 
 func init() {
 	Registry["C18"] = Set{
-		Explanation: "Decides structural clauses of event delivery: V1 in RouteSendEvent the fan-out of a local producer's publication is reachable only through the edge on which the presented token equals the registered token (unknown event and wrong token return errors), the publication is appended to the replay buffer before the consumer list is read, each listed local consumer gets exactly one send of this very message with the publisher as sender, and each remote node gets one frame; V2 in the four subscribe functions the relation is inserted before the replay buffer is snapshotted (no publication can fall between), the consumer counter is changed by exactly +1 after a successful insert / -1 after a successful removal, and the producer is notified with MessageEventStart exactly on the counter value 1 after +1 and with MessageEventStop exactly on 0 after -1, only when notifications are enabled; V3 unregistering an event and the owner's termination both reach RouteTerminateEvent for it, and only the owner may unregister. Added while probing: V1 every element of the subscriber list is either sent to locally or its node recorded in the set the frame loop ranges over. V4 the subscriber counter follows the relation set: the process release function counts a terminating subscriber out of the events it was subscribed to (both lists of CleanupConsumer), with MessageEventStop at zero. V5 = C06.G7 for events: a failed RegisterEvent leaves no entry behind, so the termination of the loser does not unregister the owner's event. V6 the local fan-out sends to a pid only behind the miss edge of a lookup in a set of served pids which it then enters (the consumer list holds a process once per relation). V7 every operation on an event's replay buffer — the push and the whole walk of a new subscriber (Item, Value, Next) — is made while that event's buffer lock is held.",
+		Explanation: "Decides structural clauses of event delivery: V1 in RouteSendEvent the fan-out of a local producer's publication is reachable only through the edge on which the presented token equals the registered token (unknown event and wrong token return errors), the publication is appended to the replay buffer before the consumer list is read, each listed local consumer gets exactly one send of this very message with the publisher as sender, and each remote node gets one frame; V2 in the four subscribe functions the relation is inserted before the replay buffer is snapshotted (no publication can fall between), the consumer counter is changed by exactly +1 after a successful insert / -1 after a successful removal, and the producer is notified with MessageEventStart exactly on the counter value 1 after +1 and with MessageEventStop exactly on 0 after -1, only when notifications are enabled; V3 unregistering an event and the owner's termination both reach RouteTerminateEvent for it, and only the owner may unregister. Added while probing: V1 every element of the subscriber list is either sent to locally or its node recorded in the set the frame loop ranges over. V4 the subscriber counter follows the relation set: the process release function counts a terminating subscriber out of the events it was subscribed to (both lists of CleanupConsumer), with MessageEventStop at zero. V5 = C06.G7 for events: a failed RegisterEvent leaves no entry behind, so the termination of the loser does not unregister the owner's event. V6 the local fan-out sends to a pid only behind the miss edge of a lookup in a set of served pids which it then enters (the consumer list holds a process once per relation). V7 every operation on an event's replay buffer — the push and the whole walk of a new subscriber (Item, Value, Next) — is made while that event's buffer lock is held. V8 the termination notice of an event uses the same kind of link/queue selector as its publications (open finding F-BI: today it travels round-robin and overtakes them). V8 the termination notice of an event uses the same kind of link/queue selector as its publications (open finding F-BI: today it travels round-robin and overtakes them).",
 		NotDecided: []string{
 			"per-publisher order and exactly-once under the subscribe-while-publishing window (consumer list is read without a lock against subscription)",
 			"delivery of each message (C02), remote framing (C12)",
@@ -40,6 +40,7 @@ func runC18(p *load.Program, r *core.Report) {
 		}
 	}
 	c18BufferLocked(a, r)
+	c18TerminationBehindPublications(a.P, r)
 	if send != nil {
 		c18ServedOnce(a, r, send)
 	}
@@ -814,5 +815,49 @@ func c18BufferLocked(a *Anchors, r *core.Report) {
 		} else {
 			r.OK(rule, key, fn, a.P.Pos(ops[0].Pos()), inst, fmt.Sprintf("%d buffer operations, all between Lock and Unlock", len(ops)))
 		}
+	}
+}
+
+// c18TerminationBehindPublications: V8 — a remote subscriber is told that the event is gone by a frame
+// of its own; if that frame can overtake the publications sent before it, the subscriber's node drops
+// the subscription first and discards them. The frame has to travel the way the publications do: the
+// same link selector and receive-queue selector as SendEvent (both derived from an identifier, not
+// the round-robin constant 0).
+func c18TerminationBehindPublications(p *load.Program, r *core.Report) {
+	rule := "C18.V8 event-termination-travels-behind-the-publications"
+	r.Floor(rule, 1)
+	sendFn := p.Func("net/proto", "connection", "send")
+	pub := p.Func("net/proto", "connection", "SendEvent")
+	term := p.Func("net/proto", "connection", "SendTerminateEvent")
+	key := "C18.V8|SendTerminateEvent"
+	inst := "the termination notice of an event uses the link and the receive queue its publications use"
+	if sendFn == nil || pub == nil || term == nil {
+		r.Unk(rule, key, "", "", inst, "frame writers not found")
+		return
+	}
+	selectorIsConstZero := func(f *ssa.Function) (bool, ssa.Instruction) {
+		var at ssa.Instruction
+		zero := false
+		eachInstr(f, func(in ssa.Instruction) {
+			cc := callCommon(in)
+			if cc == nil || staticCallee(cc) != sendFn {
+				return
+			}
+			at = in
+			if c, ok := constInt(cc.Args[2]); ok && c == 0 {
+				zero = true
+			}
+		})
+		return zero, at
+	}
+	pz, _ := selectorIsConstZero(pub)
+	tz, at := selectorIsConstZero(term)
+	switch {
+	case at == nil:
+		r.Unk(rule, key, fname(term), p.Pos(term.Pos()), inst, "no call of send in SendTerminateEvent")
+	case tz && !pz:
+		r.Bad(rule, key, fname(term), p.Pos(at.Pos()), inst, "publications travel on the link/queue selected by the publisher's id, the termination notice round-robin (selector 0): it overtakes the last publications, the subscriber's node drops the subscription and discards them")
+	default:
+		r.OK(rule, key, fname(term), p.Pos(at.Pos()), inst, "same kind of selector as SendEvent")
 	}
 }
